@@ -578,10 +578,44 @@ fn cstr_shapes(i: u64, st: &mut Stats) -> CaseResult {
     Ok(())
 }
 
+/// The error value itself: what the checks (and users) observe failures through. Each constructor yields exactly its class,
+/// `at` / `with_message` keep the class and add what they say, and an error produced by the decoder at a known place reports
+/// that place.
+fn error_api(i: u64, st: &mut Stats) -> CaseResult {
+    use minicbor::data::{Tag, Type};
+    st.eval();
+    let classes = |e: &Error| -> [bool; 7] { [e.is_end_of_input(), e.is_type_mismatch(), e.is_tag_mismatch(), e.is_message(), e.is_custom(), e.is_unknown_variant(), e.is_missing_value()] };
+    let n = (i / 16) as u32 * 1021;
+    let (what, e, k): (&str, Error, usize) = match i % 8 {
+        0 => ("end_of_input", Error::end_of_input(), 0), 1 => ("type_mismatch", Error::type_mismatch([Type::U8, Type::Break, Type::Unknown(0x1c), Type::StringIndef][(i / 8) as usize % 4]), 1),
+        2 => ("tag_mismatch", Error::tag_mismatch(Tag::new(n as u64 * 65537)), 2), 3 => ("message", Error::message("told you"), 3),
+        4 => ("custom", Error::custom(std::fmt::Error), 4), 5 => ("unknown_variant", Error::unknown_variant(n), 5), 6 => ("missing_value", Error::missing_value(n), 6),
+        _ => ("message(String)", Error::message(format!("n = {}", n)), 3)
+    };
+    let only = |e: &Error, what: &str| -> CaseResult { let c = classes(e); ensure!(c.iter().enumerate().all(|(j, b)| *b == (j == k)), "error-class", "Error::{} answers the class predicates {:?} (expected only #{})", what, c, k); Ok(()) };
+    only(&e, what)?;
+    ensure!(e.position().is_none(), "error-position", "a freshly constructed Error::{} reports position {:?}", what, e.position());
+    let p = [0usize, 1, 23, 65536, usize::MAX][(i / 8) as usize % 5];
+    let e = e.at(p);
+    only(&e, what)?;
+    ensure!(e.position() == Some(p), "error-position", "Error::{}.at({}) reports position {:?}", what, p, e.position());
+    let e = e.with_message("while doing something");
+    only(&e, what)?;
+    ensure!(e.position() == Some(p), "error-position", "with_message changed the position of Error::{} to {:?}", what, e.position());
+    let text = e.to_string();
+    ensure!(text.contains("while doing something"), "error-display", "the message given to with_message does not appear in `{}`", text);
+    if p != usize::MAX { ensure!(text.contains(&p.to_string()), "error-display", "the position {} does not appear in `{}`", p, text) }
+    st.nontrivial_enum(1);
+    st.class("error-api");
+    Ok(())
+}
+
 pub fn subs() -> Vec<Sub> {
     let n3 = space_len(3);
     let n4 = space_len(4);
     vec![
+        Sub { prop: "C04", name: "error-api", rule: "decode::Error constructors x positions x with_message: exactly one class predicate answers, the one of the constructor; at(p) is reported by position() and shown by Display, with_message keeps class and position and its text is shown",
+              kind: Kind::Enumerate { quick: 640, thorough: 640, f: error_api, complete_quick: true, complete_thorough: true } },
         Sub { prop: "C04", name: "cstr-shapes", rule: "every byte string of <= 7 bytes over {NUL, 'a', 0xff} x 5 head widths + chunked, decoded as &CStr, CString, Cow<CStr>: accepted exactly when the bytes are C-string shaped (one NUL, at the end) and the string is definite; same bytes, exact position",
               kind: Kind::Enumerate { quick: 6 * 3280, thorough: 6 * 3280, f: cstr_shapes, complete_quick: true, complete_thorough: true } },
         Sub { prop: "C04", name: "small-trees-3", rule: "every item tree with <= 3 nodes over 38 leaf representatives x definite/indefinite containers x every head-width assignment, through every Decoder accessor (value, position, borrow), datatype, Size, probe, skip, and every strict prefix through the matching accessor; non-trivial = non-preferred framing or >= 2 nodes",
